@@ -86,23 +86,32 @@ void h_max_bytes(void) {
 #define FIN_WORLD (g_v.files[1].length <= TFN && g_v.files[2].length <= TFN && g_v.files[3].length <= TFN && g_v.files[4].length <= TFN && g_v.files[5].length <= TFN && \
                    g_v.files[1].items == g_fi[1] && g_v.files[2].items == g_fi[2] && g_v.files[3].items == g_fi[3] && g_v.files[4].items == g_fi[4] && g_v.files[5].items == g_fi[5])
 
+/* (a) the integer reading - everything the scheduling decisions consume: ldb_versions_needs_compaction and
+   ldb_versions_pick_compaction only test compaction_score >= 1 and use compaction_level */
 void c3_versions_finalize(ldb_versions_t *vset, ldb_version_t *v)
 __CPROVER_requires(vset == &g_vset && v == &g_v && FIN_WORLD)
 __CPROVER_assigns(g_v.compaction_level, g_v.compaction_score)
 /* the last level is never a compaction source; some level is always chosen */
 __CPROVER_ensures(g_v.compaction_level >= 0 && g_v.compaction_level < LDB_NUM_LEVELS - 1)
-/* the score is the score of the chosen level ... */
+/* no rounding can blur it: a compaction is due (score >= 1) iff level 0 holds >= 4 files or some level 1..5 holds at least its
+   byte limit 10 MiB * 10^(level-1) ... */
+__CPROVER_ensures((g_v.compaction_score >= 1) == (ANY_OVER ? 1 : 0))
+/* ... and then the chosen level itself is over its limit, in particular not empty (ver.pick relies on that) */
+__CPROVER_ensures(!(g_v.compaction_score >= 1) || (LEVEL_OVER(g_v.compaction_level) && g_v.files[g_v.compaction_level].length > 0))
+/* a level that is under its limit is never preferred to one that is over */
+__CPROVER_ensures(!ANY_OVER || LEVEL_OVER(g_v.compaction_level))
+;
+/* (b) the floating-point reading: the score is the score of the chosen level, the largest of all, the shallowest level winning a tie */
+void c3_versions_finalize_score(ldb_versions_t *vset, ldb_version_t *v)
+__CPROVER_requires(vset == &g_vset && v == &g_v && FIN_WORLD)
+__CPROVER_assigns(g_v.compaction_level, g_v.compaction_score)
+__CPROVER_ensures(g_v.compaction_level >= 0 && g_v.compaction_level < LDB_NUM_LEVELS - 1)
 __CPROVER_ensures(g_v.compaction_score == SCORE_OF(g_v.compaction_level))
-/* ... which is the largest of all, the shallowest level winning a tie */
 __CPROVER_ensures(FS0 <= g_v.compaction_score && FS(1, MB1) <= g_v.compaction_score && FS(2, MB2) <= g_v.compaction_score &&
                   FS(3, MB3) <= g_v.compaction_score && FS(4, MB4) <= g_v.compaction_score && FS(5, MB5) <= g_v.compaction_score)
 __CPROVER_ensures((g_v.compaction_level <= 0 || FS0 < g_v.compaction_score) && (g_v.compaction_level <= 1 || FS(1, MB1) < g_v.compaction_score) &&
                   (g_v.compaction_level <= 2 || FS(2, MB2) < g_v.compaction_score) && (g_v.compaction_level <= 3 || FS(3, MB3) < g_v.compaction_score) &&
                   (g_v.compaction_level <= 4 || FS(4, MB4) < g_v.compaction_score))
-/* integer reading (no rounding can blur it): a compaction is due (score >= 1) iff level 0 holds >= 4 files or some level 1..5 holds
-   at least its byte limit; then the chosen level itself is over its limit, in particular not empty */
-__CPROVER_ensures((g_v.compaction_score >= 1) == (ANY_OVER ? 1 : 0))
-__CPROVER_ensures(!(g_v.compaction_score >= 1) || (LEVEL_OVER(g_v.compaction_level) && g_v.files[g_v.compaction_level].length > 0))
 ;
 static void mk_fin_world(void) {
   g_vset = nondet_versions(); g_v = nondet_version(); g_vset.options = &g_opt; g_v.vset = &g_vset;
@@ -112,6 +121,11 @@ static void mk_fin_world(void) {
   /* level 0: any number of files (only the count is read); level 6: anything (never read) */
 }
 void h_finalize(void) {
+  mk_fin_world();
+  ldb_versions_finalize(&g_vset, &g_v);
+  CANARY();
+}
+void h_finalize_score(void) {
   mk_fin_world();
   ldb_versions_finalize(&g_vset, &g_v);
   CANARY();
